@@ -325,3 +325,28 @@ pub proof fn lemma_built_is_handed_out_plain<T: FromStr + PurlShape>(t0: T, p0: 
     lemma_valid_type_lower(t0.type_text());
     lemma_first_build::<T>(t1, p1, fr, g);
 }
+
+/// C04 (checksum clause) for every value build() hands out: the checksum text is the sorted, lower-case, even-hex listing
+pub proof fn theorem_c04_checksum<T: PurlShape>(t1: T, p1: PurlParts, fr: Result<(), T::Error>, g: GenericPurl<T>)
+    requires fr is Ok, wf_seq(p1.qualifiers.qualifiers@), build_post::<T>(t1, p1, fr, Ok::<GenericPurl<T>, T::Error>(g)),
+        has_key(g.parts.qualifiers.qualifiers@, checksum_key()),
+    ensures exists|es: VS| #![auto] es.len() > 0 && sorted_by_key(es) && all_hex_ok(es)
+        && g.parts.qualifiers.qualifiers@[pos_of(g.parts.qualifiers.qualifiers@, checksum_key())].1@ == listing_text(es)
+        && no_ascii_upper(listing_text(es))
+{
+    let q2 = nonempty_part(p1.qualifiers.qualifiers@);
+    let gq = g.parts.qualifiers.qualifiers@;
+    lemma_checksum_key();
+    lemma_nonempty_wf(p1.qualifiers.qualifiers@);
+    lemma_first_build::<T>(t1, p1, fr, g);
+    if has_key(q2, checksum_key()) {
+        let p = pos_of(q2, checksum_key());
+        lemma_has_pair_pos_key(q2, checksum_key());
+        assert(gq[p].0.0@ == checksum_key());
+        lemma_has_pair_pos_key(gq, checksum_key());
+        lemma_sorted_unique(gq, p, pos_of(gq, checksum_key()));
+        theorem_checksum_text_shape(q2[p].1@);
+    } else {
+        assert(gq == q2);
+    }
+}
